@@ -742,6 +742,11 @@ class Calls(Interp):
         raise Unsupported("bytes(x)")
 
     def bi_str(self, args, kwargs, node):
+        if getattr(self.reg, "str_may_raise", False) and args and isinstance(args[0], VObj) and not self.spec_mode:
+            # str(x) runs x.__str__: user code, which may raise or return a non-string (TypeError) -- opted into by contract modules whose functions
+            # must be total on arbitrary objects
+            if self.choose([z3.BoolVal(True), z3.BoolVal(True)]) == 1:
+                raise PyRaise(VExc("Exception", [], exact=False))
         return VStr(self.to_str(args[0]))
 
     def bi_range(self, args, kwargs, node):
